@@ -58,6 +58,7 @@ Next ==
           IF ev.op = "construct" THEN st' = Construct(d) /\ l' = l + 1 /\ i' = i
           ELSE IF ev.op = "set_window" THEN st' = SetWindow(d, st, ev.w) /\ l' = l + 1 /\ i' = i
           ELSE IF ev.op = "set_global_window" THEN st' = SetGlobalWindow(d, st) /\ l' = l + 1 /\ i' = i
+          ELSE IF ev.op = "set_window_current" THEN st' = SetWindowCurrent(d, st) /\ l' = l + 1 /\ i' = i
           ELSE LET r == Observe(d, st, ev.obs) IN
                IF r[1] = "" THEN UNCHANGED st /\ l' = l + 1 /\ i' = i
                ELSE PrintT(<<"V", Rec.case, "REJECT", r[1], r[2] \o "@event" \o ToString(l), Tags(Rec)>>) /\ NextCase
